@@ -148,6 +148,9 @@ def gen_cases(ctx):
     for i, (sig, vals) in enumerate(BAD_BODIES):
         yield {'kind': 'badbody', 'mt': 1 + i % 4, 'sig': sig, 'vals': vals}
     yield {'kind': 'toolong'}
+    for mt in (1, 2, 3, 4):
+        for counts in ([1, 1], [2, 0, 1], [0, 3, 3, 1], [1, 2, 1, 0, 2]):
+            yield {'kind': 'fdseq', 'mt': mt, 'counts': counts}
 
 
 def build_impl(message, mt, f, vals, sig, er=True, au=True):
@@ -241,9 +244,84 @@ def layout_defect(hdr, pad, body, serial):
     return None
 
 
+def independent_fields(raw):
+    """(field codes in order, declared body length, real body length) read straight off the wire, little-endian,
+    without the library: the header-field array is a(yv); only the codes and the value of code 9 (u) are needed."""
+    import struct as _s
+    blen, _serial, alen = _s.unpack_from('<III', raw, 4)
+    pos, end, codes, nfds = 16, 16 + alen, [], None
+    while pos < end:
+        pos += (-pos) % 8
+        code = raw[pos]
+        slen = raw[pos + 1]
+        vsig = raw[pos + 2:pos + 2 + slen].decode('ascii')
+        pos += 2 + slen + 1
+        if vsig in ('s', 'o'):
+            pos += (-pos) % 4
+            n = _s.unpack_from('<I', raw, pos)[0]
+            pos += 4 + n + 1
+        elif vsig == 'g':
+            pos += 1 + raw[pos] + 1
+        elif vsig == 'u':
+            pos += (-pos) % 4
+            if code == 9:
+                nfds = _s.unpack_from('<I', raw, pos)[0]
+            pos += 4
+        else:
+            raise ValueError('unexpected header field type %r' % vsig)
+        codes.append(code)
+    body_at = end + (-end) % 8
+    return codes, blen, len(raw) - body_at, nfds
+
+
+def evaluate_fdseq(ctx, cases, res):
+    """fdseq: several descriptor-carrying messages of one class built one after the other in one process.
+    Oracle only (the C03 theorems exclude descriptors; C20 owns their attribution): every message is well-formed -
+    each header field at most once, UNIX_FDS declared = descriptors passed, declared body length = real one."""
+    from txdbus import message
+    for c in cases:
+        mt, counts = c['mt'], c['counts']
+        for j, n in enumerate(counts):
+            sig = 'h' * n + ('s' if j % 2 else '')
+            body = [100 + k for k in range(n)] + (['x'] if j % 2 else [])
+            fds = []          # callers pass a fresh out-of-band list; marshal_unix_fd fills it
+            try:
+                if mt == 1:
+                    m = message.MethodCallMessage('/a', 'M', signature=sig or None, body=body or None, oobFDs=fds)
+                elif mt == 2:
+                    m = message.MethodReturnMessage(7, signature=sig or None, body=body or None, oobFDs=fds)
+                elif mt == 3:
+                    m = message.ErrorMessage('a.Err', 7, signature=sig or None, body=body or None, oobFDs=fds)
+                else:
+                    m = message.SignalMessage('/a', 'M', 'a.b', signature=sig or None, body=body or None, oobFDs=fds)
+                raw = m.rawMessage
+            except TypeError:
+                return      # this tree's constructors take no oobFDs argument: nothing to judge here
+            except Exception as e:
+                res.violate(c, 'message %d of the sequence (%d descriptors) could not be constructed: %s: %s'
+                            % (j, n, type(e).__name__, e), 'fdseq:construct-fails')
+                break
+            codes, blen, real, nfds = independent_fields(raw)
+            res.count(['fdseq', mt, counts[:j + 1]], nontrivial=n > 0)
+            if len(set(codes)) != len(codes):
+                res.violate({'kind': 'fdseq', 'mt': mt, 'counts': counts[:j + 1]},
+                            'header field codes %r: a field occurs twice in message %d of the sequence' % (codes, j),
+                            'fdseq:header-field-repeated')
+            if (nfds or 0) != n:
+                res.violate({'kind': 'fdseq', 'mt': mt, 'counts': counts[:j + 1]},
+                            'message %d carries %d descriptors but declares UNIX_FDS=%r' % (j, n, nfds), 'fdseq:unix-fds-count')
+            if blen != real:
+                res.violate({'kind': 'fdseq', 'mt': mt, 'counts': counts[:j + 1]},
+                            'declared body length %d, real %d' % (blen, real), 'fdseq:body-length')
+
+
 def evaluate(ctx, cases, res):
     from txdbus import message, marshal, error
     cases = list(cases)
+    evaluate_fdseq(ctx, [c for c in cases if c.get('kind') == 'fdseq'], res)
+    cases = [c for c in cases if c.get('kind') != 'fdseq']
+    if not cases:
+        return
     M = message.DBusMessage
     prep = {}
     lines = []
@@ -528,6 +606,6 @@ def run(ctx, res):
                 'then the same space with random names and typed bodies from the C01 generator in random Python shapes (build); '
                 'specification-encoded wire messages in either byte order with shuffled, unknown and repeated header fields, all '
                 'flag bytes (foreign); constructor calls with one grammar-invalid name (invalid) or a non-conforming body (badbody); '
-                'one message above 2^27 bytes.  Non-trivial: a build with a body, an optional field or a cleared flag; every other case')
+                'one message above 2^27 bytes; sequences of descriptor-carrying messages of one class built in one process (fdseq, oracle only).  Non-trivial: a build with a body, an optional field or a cleared flag; every other case')
     evaluate.seen_serials = set()
     evaluate(ctx, gen_cases(ctx), res)
